@@ -219,7 +219,7 @@ func harnessNames(P *Program, pkgShort string) []string {
 func harnessNamesFromSource(pkgShort string, js bool) []string {
 	dir := filepath.Join(verifDir, "harness", pkgShort)
 	ents, _ := os.ReadDir(dir)
-	re := regexp.MustCompile(`(?m)^func (H\d\d_\w+)\(\)`)
+	re := regexp.MustCompile(`(?m)^func (H\d\d[a-z]?_\w+)\(\)`)
 	var names []string
 	for _, e := range ents {
 		if !strings.HasSuffix(e.Name(), ".go") {
